@@ -182,7 +182,56 @@ def instances():
     for mn in ('movs', 'cmps', 'scas', 'lods', 'stos'):
         for sfx, size in (('b', 8), ('w', 16), ('d', 32)):
             add('%s%s' % (mn, sfx), mn, size, 'none', 'string', bases=['esi', 'edi'], string=True)
+    # ---- 16-bit addressing (address-size prefix) on the CPU: the tracee maps low pages, so [bx+si] and friends are executable.
+    # The upper halves of the address registers hold garbage that must not matter, sums wrap at 16 bits.
+    k = 0
+    for mn in ('mov', 'add', 'cmp', 'xor', 'sbb', 'test'):
+        for size in (8, 16, 32):
+            rs = R[size]
+            for form in ('r,m', 'm,r'):
+                k += 1
+                t, b, i = MEMS16[k % len(MEMS16)]
+                ops = ('%s, %s %s' % (rs[1], KW[size], t)) if form == 'r,m' else ('%s %s, %s' % (KW[size], t, rs[2]))
+                add('%s %s' % (mn, ops), mn, size, form + '16addr', low=True, bases16=b, idx16=i)
+    for j, (t, b, i) in enumerate(MEMS16):
+        size = (8, 16, 32)[j % 3]
+        add('inc %s %s' % (KW[size], t), 'inc', size, 'm16addr', low=True, bases16=b, idx16=i)
+        add('neg %s %s' % (KW[size], t), 'neg', size, 'm16addr', low=True, bases16=b, idx16=i)
+        add('mov %s %s, %d' % (KW[size], t, 0x5a), 'mov', size, 'm,i16addr', low=True, bases16=b, idx16=i)
+        add('shl %s %s, 3' % (KW[size], t), 'shl', size, 'm,i16addr', 'count<n', low=True, bases16=b, idx16=i, count=3)
+        add('movzx eax, BYTE PTR %s' % t, 'movzx', 32, 'r32,m8-16addr', low=True, bases16=b, idx16=i)
+        add('xchg %s %s, %s' % (KW[size], t, R[size][3 if 'bx' not in t else 1]), 'xchg', size, 'm,r16addr', low=True, bases16=b, idx16=i)
+    add('push DWORD PTR [bx+si]', 'push', 32, 'm16addr', low=True, bases16=['ebx'], idx16=['esi'], stack=True)
+    add('pop DWORD PTR [di-1]', 'pop', 32, 'm16addr', low=True, bases16=['edi'], idx16=[], stack=True)
+    add('push WORD PTR [bp+si-0x20]', 'push', 16, 'm16addr', low=True, bases16=['ebp'], idx16=['esi'], stack=True)
+    add('jmp DWORD PTR [bx+0x12]', 'jmp', 32, 'm16addr', low=True, bases16=['ebx'], idx16=[], branch='indirect')
+    add('call DWORD PTR [si+0x40]', 'call', 32, 'm16addr', low=True, bases16=['esi'], idx16=[], branch='indirect', stack=True)
+    add('xlat BYTE PTR ds:[bx]', 'xlat', 8, 'none16addr', low=True, bases16=['ebx'], idx16=[], xlat=True)
+    for cc in ('e', 'b'):
+        add('set%s BYTE PTR [bx+di+0x10]' % cc, 'set' + cc, 8, 'm8-16addr', 'cc=' + cc, low=True, bases16=['ebx'], idx16=['edi'])
+        add('cmov%s edx, DWORD PTR [si+0x40]' % cc, 'cmov' + cc, 32, 'r,m16addr', 'cc=' + cc, low=True, bases16=['esi'], idx16=[])
+    for sfx, size in (('b', 8), ('w', 16), ('d', 32)):
+        kw = KW[size]
+        acc = {8: 'al', 16: 'ax', 32: 'eax'}[size]
+        add('movs %s es:[di], %s ds:[si]' % (kw, kw), 'movs', size, 'none16addr', 'string', low=True, bases16=['esi', 'edi'], idx16=[], string=True)
+        add('cmps %s ds:[si], %s es:[di]' % (kw, kw), 'cmps', size, 'none16addr', 'string', low=True, bases16=['esi', 'edi'], idx16=[], string=True)
+        add('scas %s, %s es:[di]' % (acc, kw), 'scas', size, 'none16addr', 'string', low=True, bases16=['edi'], idx16=[], string=True)
+        add('lods %s, %s ds:[si]' % (acc, kw), 'lods', size, 'none16addr', 'string', low=True, bases16=['esi'], idx16=[], string=True)
+        add('stos %s es:[di], %s' % (kw, acc), 'stos', size, 'none16addr', 'string', low=True, bases16=['edi'], idx16=[], string=True)
+    # ---- prefixes that do not change what a stack or control-transfer instruction does (address size never sizes the stack slot)
+    for t, mn, form, extra in (('addr16 call .+0x40', 'call', 'rel32+67', dict(branch='direct', stack=True)), ('addr16 push eax', 'push', 'r+67', dict(stack=True)),
+                               ('addr16 pop ebx', 'pop', 'r+67', dict(stack=True)), ('addr16 ret', 'ret', 'none+67', dict(branch='indirect', stack=True)),
+                               ('addr16 pushfd', 'pushf', 'none+67', dict(stack=True)), ('addr16 leave', 'leave', 'none+67', dict(stack=True)),
+                               ('addr16 push 0x12345678', 'push', 'i+67', dict(stack=True)), ('addr16 call edx', 'call', 'r+67', dict(branch='indirect', stack=True)),
+                               ('addr16 jmp .+0x20', 'jmp', 'rel8+67', dict(branch='direct')), ('addr16 add eax, ebx', 'add', 'r,r+67', {}), ('addr16 jecxz .+0x10', 'jecxz', 'rel8+67', dict(branch='direct')),
+                               ('addr16 loop .+0x10', 'loop', 'rel8+67', dict(branch='direct')), ('addr16 loope .-0x20', 'loope', 'rel8-back+67', dict(branch='direct')),
+                               ('addr16 loopne .+0x10', 'loopne', 'rel8+67', dict(branch='direct'))):
+        add(t, mn, 32, form, 'ecx-class' if mn in ('jecxz', 'loop', 'loope', 'loopne') else '-', bases=['ebp'] if mn == 'leave' else [], **extra)
     return out
+
+
+MEMS16 = [('[bx+si]', ['ebx'], ['esi']), ('[bx+di+0x10]', ['ebx'], ['edi']), ('[bp+si-0x20]', ['ebp'], ['esi']), ('[bp+di+8]', ['ebp'], ['edi']),
+          ('[si+0x40]', ['esi'], []), ('[di-1]', ['edi'], []), ('[bx+0x12]', ['ebx'], []), ('[bp+0]', ['ebp'], [])]
 
 
 # architecturally undefined results (SDM): mnemonic -> function(instance, count) -> set of flags, and register-undefined predicate
@@ -270,6 +319,21 @@ def result_undefined(inst, regs, mem_src_zero):
 BOUNDARY32 = [0, 1, 2, 0x7f, 0x80, 0xff, 0x100, 0x7fff, 0x8000, 0xffff, 0x10000, 0x7fffffff, 0x80000000, 0xffffffff, 0xfffffffe, 0x55555555, 0xaaaaaaaa, 0x0000ffff, 0xffff0000, 31, 32, 33, 16, 15, 17, 8, 9, 7]
 
 
+def hot_base(inst, regs):
+    """Where the 1024 hot bytes live for this state: the normal data page, the low window (16-bit addressing), or - for string
+    instructions whose 16-bit pointer sits just below 0x10000 - the top of the first 64K."""
+    if not inst['extra'].get('low'):
+        return O.HOT_ADDR
+    if inst['extra'].get('string') and (regs[inst['extra']['bases16'][0]] & 0xffff) >= O.TOP_HOT_ADDR:
+        return O.TOP_HOT_ADDR
+    return O.LOW_HOT_ADDR
+
+
+def low_kind(inst, regs):
+    hb = hot_base(inst, regs)
+    return 'top' if hb == O.TOP_HOT_ADDR else (hb == O.LOW_HOT_ADDR)
+
+
 def make_state(inst, rng, k):
     """Initial state: dict regs, flags dict, hot bytes."""
     regs = {}
@@ -308,16 +372,41 @@ def make_state(inst, rng, k):
         regs['edx'] = rng.choice((0, 0, 1, 0xffffffff)) if inst['size'] == 32 else ((regs['edx'] & 0xffff0000) | rng.choice((0, 0, 1, 0xffff)))
         if inst['size'] == 8:
             regs['eax'] = (regs['eax'] & 0xffff0000) | rng.getrandbits(12)
+    hb = O.LOW_HOT_ADDR if inst['extra'].get('low') else O.HOT_ADDR
+    if inst['extra'].get('low'):
+        lowmid = O.LOW_HOT_ADDR + 512
+        regs['esp'] = lowmid + 4 * rng.randrange(-8, 8)
+        b16, i16 = inst['extra']['bases16'], inst['extra']['idx16']
+        for b in b16:
+            regs[b] = (rng.getrandbits(16) << 16) | (lowmid + 64 * rng.choice((-2, -1, 1, 2)) + rng.randrange(0, 16))
+        for i in i16:
+            regs[i] = (rng.getrandbits(16) << 16) | rng.randrange(0, 8)
+        if b16 and i16 and k % 3 == 0:
+            # the 16-bit sum wraps: base near the top of the segment, index brings it back into the window
+            target = regs[b16[0]] & 0xffff
+            hi = 0xff00 + rng.randrange(0, 0x100)
+            regs[b16[0]] = (regs[b16[0]] & 0xffff0000) | hi
+            regs[i16[0]] = (regs[i16[0]] & 0xffff0000) | ((target - hi) & 0xffff)
+        if inst['extra'].get('xlat'):
+            regs['eax'] = (regs['eax'] & 0xffffff00) | rng.randrange(0, 64)
+        wrap_string = inst['extra'].get('string') and k % 4 == 1
+        if wrap_string:
+            # the pointers sit on the last element below 0x10000 and step across the 16-bit wrap (DF=0 is forced below)
+            for b in b16:
+                regs[b] = (regs[b] & 0xffff0000) | (0x10000 - inst['size'] // 8)
+            hb = O.TOP_HOT_ADDR
     flags = dict((f, rng.getrandbits(1)) for f in O.ARITH_FLAGS)
     if k < 8:
         flags['cf'], flags['zf'], flags['df'] = k & 1, (k >> 1) & 1, (k >> 2) & 1
+    if inst['extra'].get('low') and inst['extra'].get('string') and k % 4 == 1:
+        flags['df'] = 0
     hot = bytearray(rng.getrandbits(8) for _ in range(O.HOT))
     if rng.random() < 0.3:
         for j in range(O.HOT):
             hot[j] = rng.choice((0, 0xff, 0x80, 0x7f, 1))
     if inst['extra'].get('popf'):
         # the popped image may only set status flags and DF (no TF/IF/NT/AC/ID changes)
-        off = regs['esp'] - O.HOT_ADDR
+        off = regs['esp'] - hb
         v = 0x202 | O.pack_eflags(dict((f, rng.getrandbits(1)) for f in O.ARITH_FLAGS))
         hot[off:off + 4] = struct.pack('<I', v)
     if inst['form'] in ('m', 'm-sib') and inst['mn'] in ('jmp', 'call') or inst['mn'] == 'ret':
@@ -325,7 +414,7 @@ def make_state(inst, rng, k):
     return regs, flags, bytes(hot)
 
 
-def lifted_outcome(ins, regs, flags, hot):
+def lifted_outcome(ins, regs, flags, hot, hb=None):
     """Run the lifted semantics on the state with the independent interpreter."""
     from miasmx.tools import emul_helper
     env = irsem.Env(seed='c04')
@@ -334,8 +423,9 @@ def lifted_outcome(ins, regs, flags, hot):
     for f, v in flags.items():
         env.ids[f] = v
     env.ids.update({'tf': 0, 'i_f': 1, 'iopl_f': 0, 'nt': 0, 'rf': 0, 'vm': 0, 'ac': 0, 'vif': 0, 'vip': 0, 'i_d': 0})
+    hb = O.HOT_ADDR if hb is None else hb
     for j, bt in enumerate(hot):
-        env.mem[O.HOT_ADDR + j] = bt
+        env.mem[hb + j] = bt
     nxt = exprgen.Int(O.CODE_ADDR + ins.l, 32)
     affs = emul_helper.get_instr_expr(ins, nxt, [])
     env.reads = []
@@ -349,9 +439,14 @@ def compare_case(sh, inst, code, ins, regs, flags, hot, cpu):
     wit = {'text': inst['text'], 'code': code.hex(), 'regs': regs, 'flags': flags, 'hot': hot.hex()}
     # mechanism key: mnemonic family / operand size / destination kind (register or memory form); the operand *form* detail stays in the witness
     dkind = 'm' if inst['form'].startswith('m') else ('r' if inst['form'][:1] in ('r', 'a') else inst['form'])
+    if '+67' in inst['form']:
+        dkind += '+67'
+    elif '16addr' in inst['form']:
+        dkind = dkind.replace("16addr", "") + "+16addr"
     keybase = '%s/%d/%s' % (mn if not re.match(r'^(set|cmov|j)(' + '|'.join(CC) + ')$', mn) else re.sub(r'(set|cmov|j).*', r'\1cc', mn), inst['size'], dkind)
+    hb = hot_base(inst, regs)
     try:
-        new, writes, reads = lifted_outcome(ins, regs, flags, hot)
+        new, writes, reads = lifted_outcome(ins, regs, flags, hot, hb)
     except (irsem.Undefined, irsem.Uninterpreted) as e:
         sh.counters['lifted_undefined_or_uninterpreted'] += 1
         return False
@@ -384,7 +479,7 @@ def compare_case(sh, inst, code, ins, regs, flags, hot, cpu):
     # memory
     mism = None
     for j in range(O.HOT):
-        got = new.mem.get(O.HOT_ADDR + j, hot[j])
+        got = new.mem.get(hb + j, hot[j])
         if got != cpu['hot'][j]:
             mism = j
             break
@@ -394,16 +489,16 @@ def compare_case(sh, inst, code, ins, regs, flags, hot, cpu):
             # single-step artefact: the pushed image shows TF=1
             ok = True
             for j in range(O.HOT):
-                got = new.mem.get(O.HOT_ADDR + j, hot[j])
+                got = new.mem.get(hb + j, hot[j])
                 if got != cpu['hot'][j] and (got ^ cpu['hot'][j]) != 0x01:
                     ok = False
             if not ok:
-                problems.append(('mem', 'memory at +0x%x: lifted %02x, CPU %02x' % (mism, new.mem.get(O.HOT_ADDR + mism, hot[mism]), cpu['hot'][mism])))
+                problems.append(('mem', 'memory at +0x%x: lifted %02x, CPU %02x' % (mism, new.mem.get(hb + mism, hot[mism]), cpu['hot'][mism])))
         else:
-            problems.append(('mem', 'memory at hot+0x%x: lifted %02x, CPU %02x' % (mism, new.mem.get(O.HOT_ADDR + mism, hot[mism]), cpu['hot'][mism])))
+            problems.append(('mem', 'memory at hot+0x%x: lifted %02x, CPU %02x' % (mism, new.mem.get(hb + mism, hot[mism]), cpu['hot'][mism])))
     # writes outside the hot region by the lifted semantics
     for w in writes:
-        if w[0] == 'mem' and not (O.HOT_ADDR <= w[1] and w[1] + w[2] <= O.HOT_ADDR + O.HOT):
+        if w[0] == 'mem' and not (hb <= w[1] and w[1] + w[2] <= hb + O.HOT):
             problems.append(('mem', 'lifted semantics write %d bytes at 0x%08x, outside the operand window' % (w[2], w[1])))
             break
     # control flow
@@ -426,7 +521,7 @@ def compare_case(sh, inst, code, ins, regs, flags, hot, cpu):
     fam = keybase.split('/')[0]
     for loc, detail in problems:
         if loc.startswith('flag:'):
-            key = '%s/%s/%s' % (fam, loc, cls)          # flag formulas do not depend on operand size or form
+            key = '%s/%s/%s' % (fam + ('+67' if dkind.endswith('+67') else ('+16addr' if dkind.endswith('+16addr') else '')), loc, cls)          # flag formulas do not depend on operand size or form
         else:
             key = '%s/%s/%s' % (keybase, loc, cls)
         if key in seen:
@@ -465,7 +560,7 @@ def run_part(sh, insts, nstates, seed, tier):
         rng = common.rng_for(seed, 'C04', inst['text'])
         for k in range(nstates):
             regs, flags, hot = make_state(inst, rng, k)
-            cases.append(dict(code=g, regs=[regs[r] for r in O.REGS], eflags=O.pack_eflags(flags), hot=hot))
+            cases.append(dict(code=g, regs=[regs[r] for r in O.REGS], eflags=O.pack_eflags(flags), hot=hot, low=low_kind(inst, regs)))
             meta.append((inst, g, ins, regs, flags, hot))
     if not cases:
         return
@@ -524,7 +619,7 @@ def replay(w):
     g = bytes.fromhex(w['code'])
     ins = x86mnemo.dis(bin_stream(Virt(O.CODE_ADDR, g), O.CODE_ADDR))
     regs, flags, hot = w['regs'], w['flags'], bytes.fromhex(w['hot'])
-    cpu = O.run_cases([dict(code=g, regs=[regs[r] for r in O.REGS], eflags=O.pack_eflags(flags), hot=hot)])[0]
+    cpu = O.run_cases([dict(code=g, regs=[regs[r] for r in O.REGS], eflags=O.pack_eflags(flags), hot=hot, low=low_kind(inst, regs))])[0]
     if cpu['status'] == 0 and ins is not None:
         compare_case(sh, inst, g, ins, regs, flags, hot, cpu)
     return [(v['key'], v['detail']) for v in sh.violations]
